@@ -72,13 +72,38 @@ def gen():
                 ok = lambda s: s.endswith(";") and not re.match(r"(let|return|break|continue)\b", s) and "=>" not in s and s.count("(") == s.count(")") and not s.startswith("}")
                 if len(ind) >= 8 and ok(t) and ok(tn) and n[:len(n) - len(n.lstrip())] == ind and t != tn:
                     add("SWAP", [n, l], span=2)
+            # DELCHAIN: one element of a multi-line method chain
+            if t.startswith(".") and t.count("(") == t.count(")") and not t.startswith(".await") and i - 1 in idx:
+                add("DELCHAIN", [])
+            # STOPRUN: the two liveness predicates swapped
+            for a, b in (("stopped", "running"), ("running", "stopped")):
+                for form in ("Addr::%s", ".%s()"):
+                    if form % a in l and "fn " not in l:
+                        add("STOPRUN", [l.replace(form % a, form % b, 1)])
+            for a, b in ((".is_some_and(", ".is_none_or("), (".is_none_or(", ".is_some_and(")):
+                if a in l: add("SOMEAND", [l.replace(a, b, 1)])
+            # BRKCONT / WHILEIF
+            if re.search(r"\bbreak\b", l) and "'" not in l: add("BRKCONT", [re.sub(r"\bbreak\b", "continue", l, 1)])
+            if re.search(r"\bcontinue\b", l): add("BRKCONT", [re.sub(r"\bcontinue\b", "break", l, 1)])
+            if re.match(r"\s*while let ", l): add("WHILEIF", [l.replace("while let", "if let", 1)])
+            # numeric literal 1 <-> 0 / 2 in calls
+            m2 = re.search(r"\((\d+)([,)])", l)
+            if m2 and not t.startswith("log::") and "assert" not in l:
+                v = int(m2.group(1)); add("NUM", [l[:m2.start(1)] + str(v + 1) + l[m2.end(1):]])
+                if v > 0: add("NUM", [l[:m2.start(1)] + str(v - 1) + l[m2.end(1):]])
+    # keep the ids of an earlier generation stable: new mutants are appended
+    prev = json.load(open(os.path.join(W, "mutants.json"))) if os.path.exists(os.path.join(W, "mutants.json")) else []
+    prevk = {(m["file"], m["line"], m["op"], tuple(m["new"])) for m in prev}
+    muts = prev + [m for m in muts if (m["file"], m["line"], m["op"], tuple(m["new"])) not in prevk]
     # de-duplicate
     seen = set(); out = []
     for m in muts:
         k = (m["file"], m["line"], m["op"], tuple(m["new"]))
         if k in seen or m["new"] == m["old"]:
             continue
-        seen.add(k); m["id"] = len(out); out.append(m)
+        seen.add(k)
+        if "id" not in m: m["id"] = max([x.get("id", -1) for x in out] + [-1]) + 1
+        out.append(m)
     os.makedirs(W, exist_ok=True)
     json.dump(out, open(os.path.join(W, "mutants.json"), "w"), indent=0)
     print("generated", len(out), "mutants")
